@@ -96,7 +96,9 @@ def chunks(lst, n=CHUNK):
 def build_project(strings, root, dumpdir):
     """-> files, plan.  plan: list of (kind, ident, given strings, dump path(s), extra)"""
     plan = []
-    L = ["project('argv', 'c', default_options: ['warning_level=0'])", "dump = find_program('%s')" % DUMP]
+    L = ["project('argv', 'c', default_options: ['warning_level=0'])", "dump = find_program('%s')" % DUMP,
+         # a test setup whose wrapper is transparent (env PROG ARGS... runs PROG ARGS...): every test must still receive its own args
+         "add_test_setup('wrapped', exe_wrapper: [find_program('env')])"]
     plain = [s for s in strings if '\n' not in s and not has_template(s) and s != '&&']
     nl = [s for s in strings if '\n' in s and not has_template(s)]
     n = 0
@@ -453,15 +455,19 @@ def run_project(job):
                 compare('project_link_args', 'project_link_args', given, [b('--plverif%d=%s' % (i, s)) for i, s in enumerate(given)], seg)
     # tests through the real `meson test`
     tests = [p for p in plan if p[0] == 'test']
-    if tests:
-        tr = mp.run_meson(['test', '-C', bdir, '--no-rebuild', '--num-processes', '4'], root, env=env, timeout=600)
+    for tsetup in ((None, 'wrapped') if tests else ()):
+        for kind, name, given, dump, extra in tests:
+            if os.path.exists(dump):
+                os.unlink(dump)
+        tr = mp.run_meson(['test', '-C', bdir, '--no-rebuild', '--num-processes', '4'] + (['--setup=' + tsetup] if tsetup else []), root, env=env, timeout=600)
+        sfx = '' if tsetup is None else '+setup-exe_wrapper'
         for kind, name, given, dump, extra in tests:
             if not os.path.exists(dump):
-                viol('C03:test:no-observation', '%s: test did not run (meson test rc %d): %s' % (name, tr.rc, tr.out[-200:]), given[:5], None)
+                viol('C03:test%s:no-observation' % sfx, '%s: test did not run (meson test rc %d): %s' % (name, tr.rc, tr.out[-200:]), given[:5], None)
                 continue
             args, envv = parse_dump(dump)
             args = [x for x in args if not x.startswith(b'--dump=') and not x.startswith(b'--env=TE') and x != b'--tap']
-            compare('test-' + extra['proto'], name, given, [b(s) for s in given], args)
+            compare('test-' + extra['proto'] + sfx, name, given, [b(s) for s in given], args)
             for i in range(extra['nenv']):
                 out['cases'] += 1
                 if envv.get('TE%d' % i) != b(given[i]):
